@@ -137,7 +137,7 @@ def resize(rng, xs, filler):
     return (list(xs) + [filler] * 4)[:k]
 
 
-def length_catalogue(rng):
+def length_catalogue(rng, tier="quick"):
     """-> list of (site, control feature (consistent), broken feature (inconsistent))"""
     out = []
     E = [[1, 2, 3], [4, 5, 6]]
@@ -211,6 +211,57 @@ def length_catalogue(rng):
                 _slab(**{"temperature models": [dict(mc, **{"reference model name": rng.choice(["plate", "half-space model", ""])})]})))
     out.append(("mass-conserving:migration-times", _slab(**{"temperature models": [mc]}),
                 _slab(**{"temperature models": [dict(mc, **{"spreading velocity": rng.choice([0.03, [[0, [[0.03, 0.03, 0.03, 0.03]]]]])})]})))
+    # ---- systematic: every host (six feature kinds, feature level and segment level for slabs and faults) x every grains / composition model x every parallel list
+    # (each feature kind has its own textual copy of these checks).  A random sample of them per run in the quick tier, all of them in the thorough tier.
+    def _area(kind):
+        return lambda key, m: {"model": kind, "name": "h", "coordinates": POLY, "max depth": 200e3, key: [m]}
+    hosts = [("continental plate", _area("continental plate")), ("oceanic plate", _area("oceanic plate")), ("mantle layer", _area("mantle layer")),
+             ("plume", lambda key, m: _plume(**{key: [m]})),
+             ("slab", lambda key, m: _slab(**{key: [m]})), ("fault", lambda key, m: _slab("fault", **{key: [m]})),
+             ("slab-segment", lambda key, m: _slab(segments=[dict(SEG, **{key: [m]}), dict(SEG)])),
+             ("fault-segment", lambda key, m: _slab("fault", segments=[dict(SEG), dict(SEG, **{key: [m]})]))]
+    fills = {"compositions": 2, "fractions": 0.5, "grain sizes": 0.25, "normalize grain sizes": True, "deflections": 0.25, "Euler angles z-x-z": [7, 8, 9], "rotation matrices": M[0],
+             "basis Euler angles z-x-z": [1, 1, 1], "basis rotation matrices": M[1]}
+    gmodels = [("uniform/euler", {"model": "uniform", "compositions": [0, 1], "Euler angles z-x-z": E, "grain sizes": [0.5, -1]}),
+               ("uniform/matrices", {"model": "uniform", "compositions": [0, 1], "rotation matrices": M, "grain sizes": [0.5, 0.25]}),
+               ("random", {"model": "random uniform distribution", "compositions": [0, 1], "grain sizes": [0.5, -1], "normalize grain sizes": [True, False]}),
+               ("deflected/euler", {"model": "random uniform distribution deflected", "compositions": [0, 1], "grain sizes": [0.5, -1], "normalize grain sizes": [True, False], "deflections": [0.5, 1],
+                                    "basis Euler angles z-x-z": E}),
+               ("deflected/matrices", {"model": "random uniform distribution deflected", "compositions": [0, 1], "grain sizes": [0.5, -1], "normalize grain sizes": [True, False], "deflections": [0.5, 1],
+                                       "basis rotation matrices": M})]
+    sysout = []
+    for hn, mk in hosts:
+        for mn, gmod in gmodels:
+            if hn == "plume" and mn == "random":
+                continue                    # the plume has no plain random grains model
+            for key in [k for k in gmod if k in fills]:
+                sysout.append(("sys:grains:%s@%s:%s" % (mn, hn, key), mk("grains models", gmod), mk("grains models", dict(gmod, **{key: resize(rng, gmod[key], fills[key])}))))
+            # orientation given twice / not at all
+            both = dict(gmod); neither = dict(gmod)
+            if mn.startswith("uniform"):
+                both.update({"Euler angles z-x-z": E, "rotation matrices": M}); neither.pop("Euler angles z-x-z", None); neither.pop("rotation matrices", None)
+            elif mn.startswith("deflected"):
+                both.update({"basis Euler angles z-x-z": E, "basis rotation matrices": M}); neither.pop("basis Euler angles z-x-z", None); neither.pop("basis rotation matrices", None)
+            else:
+                continue
+            sysout.append(("sys:grains:%s@%s:both-orientations" % (mn, hn), mk("grains models", gmod), mk("grains models", both)))
+            sysout.append(("sys:grains:%s@%s:no-orientation" % (mn, hn), mk("grains models", gmod), mk("grains models", neither)))
+        for key in ("compositions", "fractions"):
+            sysout.append(("sys:composition:uniform@%s:%s" % (hn, key), mk("composition models", cu), mk("composition models", dict(cu, **{key: resize(rng, cu[key], fills[key])}))))
+    rng.shuffle(sysout)
+    out += sysout if tier == "thorough" else sysout[:60]
+    # guards found untriggered by the assertion-site census (the harness's error text names file and line of every thrown assertion): the fault's copy of the section
+    # segment count, the plume's depth order, the mass conserving tables
+    out.append(("section:segment-count@fault", _slab("fault", sections=[{"coordinate": 1, "segments": [dict(SEG), dict(SEG, length=100e3)]}]),
+                _slab("fault", sections=[{"coordinate": rng.choice([0, 1, 2]), "segments": resize(rng, [dict(SEG), dict(SEG)], dict(SEG)) or [dict(SEG)]}])))
+    out.append(("plume:depths-not-ascending", _plume(), dict(_plume(), **{"cross section depths": rng.choice([[100e3, 300e3, 200e3], [200e3, 200e3, 300e3], [300e3, 200e3, 100e3]])})))
+    mc1 = dict(mc, **{"spreading velocity": [[0, [[0.03, 0.03], [0.03, 0.03]]]], "subducting velocity": 0.03})
+    out.append(("mass-conserving:velocity-table-rows", _slab(**{"temperature models": [mc1]}),
+                _slab(**{"temperature models": [dict(mc1, **{"spreading velocity": [[0, [[0.03, 0.03], [0.03, 0.03], [0.03, 0.03]]]]})]})))
+    out.append(("mass-conserving:subducting-rows", _slab(**{"temperature models": [mc]}),
+                _slab(**{"temperature models": [dict(mc, **{"subducting velocity": rng.choice([[[0.03, 0.03]], [[0.03, 0.03], [0.03, 0.03, 0.03]], [[0.03, 0.03], [0.03]]])})]})))
+    out.append(("mass-conserving:subducting-differs-from-spreading", _slab(**{"temperature models": [mc]}),
+                _slab(**{"temperature models": [dict(mc, **{"subducting velocity": [[0.03, 0.03], [0.03, 0.06]]})]})))
     # arity
     out.append(("value-at-points:point-arity", _cont(**{"max depth": [[100e3, [[0, 0]]], [150e3, [[50e3, 50e3]]]]}), _cont(**{"max depth": [[100e3, [[0, 0]]], [150e3, [rng.choice([[50e3], []])]]]})))
     return out
@@ -374,7 +425,7 @@ def build_documents(seed, tier, wdir):
                 add("bytes", kind, "b_%d_%d.wb" % (i, j), b)
         for j, (kind, t) in enumerate(format_variants(rng, w)):
             add("format", kind, "f_%d_%d.wb" % (i, j), t, None, "same", path)
-    cat = length_catalogue(rng)
+    cat = length_catalogue(rng, tier)
     for i, (site, good, bad) in enumerate(cat):
         base = rng.choice(cart_worlds)[1] if rng.random() < 0.7 else {"version": "1.1", "features": []}
         add("length-control", site, "lc_%d.wb" % i, json.dumps(embed(rng, base, good)), embed(rng, base, good), "accept")
